@@ -278,7 +278,9 @@ func contextRefName(contextOfCall protoreflect.Descriptor, refElement protorefle
 	contextPath := pathToPackage(contextOfCall)
 
 	for i := 0; i < len(contextPath); i++ {
-		if len(refPath) == 0 || refPath[0] != contextPath[i] {
+		// the last element is the referenced type's own name: a message which
+		// refers to itself or to one of its parents still needs a name.
+		if len(refPath) <= 1 || refPath[0] != contextPath[i] {
 			break
 		}
 		refPath = refPath[1:]
